@@ -18,7 +18,7 @@ def prod(l):
     return p
 
 
-CLASSES = ["noise", "zeros", "constant", "onesided", "negative", "offset", "subnormal", "nearmax", "mixed", "single"]
+CLASSES = ["noise", "zeros", "constant", "onesided", "negative", "offset", "band", "subnormal", "nearmax", "mixed", "single"]
 
 
 def gen_values(rng, dtype, n, cls):
@@ -36,6 +36,12 @@ def gen_values(rng, dtype, n, cls):
     elif cls == "offset":
         c = rng.choice([10.0, -10.0, 100.0])
         v = [c + rng.uniform(0, 1) for _ in range(n)]
+    elif cls == "band":
+        # a one-sided band [c, c + d] at every ratio c/d between 1 and 20 (both signs): sweeps the zero-point over its whole range
+        d = rng.choice([1.0, 0.25, 3.0])
+        c = rng.uniform(1, 20) * d * rng.choice([1, -1])
+        v = [c + rng.uniform(0, d) * (1 if c > 0 else -1) for _ in range(n)]
+        v[0], v[-1] = c, c + d * (1 if c > 0 else -1)
     elif cls == "subnormal":
         v = [rng.uniform(-40, 40) * tiny for _ in range(n)]
     elif cls == "nearmax":
